@@ -14,7 +14,15 @@ WANT = {'C04'}
 
 def run(ctx, res):
     sched_run.run_all(ctx, res, WANT, 'C04')
+    # the same clauses on the end-to-end path: real farm messages, the real worker (pl.worker.cluster.execute),
+    # the real store and run ids from the real db.next(); REAL overlaps of executions
+    from . import c02_e2e
+    c02_e2e.run_monitors(ctx, res, WANT)
 
 
 def replay(rep, res):
-    sched_run.replay_case(rep, res, WANT)
+    if ':e2e-' in str(rep.get('sig', '')):
+        from . import c02_e2e
+        c02_e2e.replay_monitors(rep, res, WANT)
+    else:
+        sched_run.replay_case(rep, res, WANT)
